@@ -14,15 +14,15 @@ Open Scope Z_scope.
    models hard-code, as the translator reads them from the current source
    (Gen/VnGen.v): order of VnBest's guards (length, sign, trivial return, all
    before the first write), `*weight < T::zero()`, the stop test
-   `imbalance <= nearest_weight || is_zero`, the move, the source part being the
+   `imbalance <= nearest_weight || is_zero`, the progress test of fix 98041ea between it and the move, the move, the source part being the
    heaviest one; VnFirst's `part_loads[p] < max_load`, `imbalance < new_imbalance`,
    the roll-back, `p` read once per index (stale in the inner loop), the
    `i_last = i` exit. *)
 Theorem C14_source_literals :
-  [vnbest_guards_in_order; vnbest_negative_test; vnbest_stop_when_not_below; vnbest_move;
+  [vnbest_guards_in_order; vnbest_negative_test; vnbest_stop_when_not_below; vnbest_progress_test; vnbest_move;
    vnbest_source_is_heaviest; vnfirst_skip_strict; vnfirst_reject_strict; vnfirst_rollback;
    vnfirst_stale_p; vnfirst_stops_after_move]
-  = [true; true; true; true; true; true; true; true; true; true].
+  = [true; true; true; true; true; true; true; true; true; true; true].
 Proof. exact eq_refl. Qed.
 Print Assumptions C14_source_literals.
 
@@ -94,25 +94,43 @@ Print Assumptions C14_check_vn_ok.
 
 (* [vn_bestW A], [vn_firstW A] are the same transcriptions with every +, -, <, <=, ==, / two going
    through the arithmetic [A].  The guards need no law: *)
-Theorem C14_vnbest_negative_generic : forall (A : arith) fuel ws p, length ws = length p ->
-  Exists (fun w => w_ltb A w (w_zero A) = true) ws -> vn_bestW A fuel ws p = Err NegativeValues.
+Theorem C14_vnbest_negative_generic : forall (A : arith) guard fuel ws p, length ws = length p ->
+  Exists (fun w => w_ltb A w (w_zero A) = true) ws -> vn_bestW A guard fuel ws p = Err NegativeValues.
 Proof. exact vn_bestW_negative. Qed.
 Print Assumptions C14_vnbest_negative_generic.
-Theorem C14_vn_mismatch_generic : forall (A : arith) fuel ws p, length ws <> length p ->
-  vn_bestW A fuel ws p = Err (InputLenMismatch (length p) (length ws))
+Theorem C14_vn_mismatch_generic : forall (A : arith) guard fuel ws p, length ws <> length p ->
+  vn_bestW A guard fuel ws p = Err (InputLenMismatch (length p) (length ws))
   /\ vn_firstW A ws p = Err (InputLenMismatch (length p) (length ws)).
-Proof. exact (fun A fuel ws p H => conj (vn_bestW_mismatch A fuel ws p H) (vn_firstW_mismatch A ws p H)). Qed.
+Proof. exact (fun A g fuel ws p H => conj (vn_bestW_mismatch A g fuel ws p H) (vn_firstW_mismatch A ws p H)). Qed.
 
-(* The gap and termination statements do NOT survive rounding (the model is bit-for-bit the code):
-   REFUTED for binary64 -- VnBest never returns on 0.2 0.8 0.9 0.1 0.1 with parts 1 1 0 1 0
-   (loads 1.0 | 1.1; the tracked imbalance is the rounded difference 0.10000000000000009 > 0.1, the
-   weight 0.1 is moved, the loads become 1.1 | 1.0, it is moved back, for ever): whatever the fuel,
-   the model answers OutOfFuel. *)
-Theorem C14_vnbest_f64_terminates_refuted : forall fuel, vn_bestW F64arith fuel osc_ws osc_p = OutOfFuel.
+(* The progress test added by fix 98041ea (`new_overweight_load < new_underweight_load &&
+   !(new_underweight_load - new_overweight_load < imbalance)` => break) is part of both models.  On the
+   integers it never fires: the loop with it and the loop without it are the same function, which is
+   why C14_vnbest_gap / _terminates / _no_panic above stand unchanged ([vn_best] runs [vb_step], the
+   loop with the test; the proofs go through [vb_step0], the loop without it). *)
+Theorem C14_vnbest_progress_test_idle_on_integers :
+  (forall flt crit st, vb_step flt crit st = vb_step0 flt crit st)
+  /\ (forall fuel ws p, vn_bestW Zarith true fuel ws p = vn_bestW Zarith false fuel ws p).
+Proof. exact (conj vb_step_eq vn_bestW_Z_guard). Qed.
+Print Assumptions C14_vnbest_progress_test_idle_on_integers.
+
+(* Regression witness about the OLD loop (guard = false, the code before fix 98041ea): with rounding it
+   need not terminate -- on 0.2 0.8 0.9 0.1 0.1 with parts 1 1 0 1 0 (loads 1.0 | 1.1; the tracked
+   imbalance is the rounded difference 0.10000000000000009 > 0.1, the weight 0.1 is moved, the loads
+   become 1.1 | 1.0, it is moved back, for ever) the model answers OutOfFuel whatever the fuel. *)
+Theorem C14_vnbest_f64_terminates_refuted : forall fuel, vn_bestW F64arith false fuel osc_ws osc_p = OutOfFuel.
 Proof. exact vnbest_f64_never_returns. Qed.
 Print Assumptions C14_vnbest_f64_terminates_refuted.
 
-(* REFUTED for binary64 in exact arithmetic -- VnFirst on 0.1 0.1 0.6000000000000001 0.7000000000000001
+(* ... and with the progress test (the current code) the same input returns at once, nothing moved.
+   Termination of the new loop on binary64 in general is NOT proved (no clean decreasing measure was
+   found: the pair of parts changes from turn to turn, absorbed weights leave the tracked loads
+   unchanged, and rounded moves do not conserve the sum); it is validated by the f64 stream only. *)
+Theorem C14_vnbest_f64_fixed_example : vn_bestW F64arith true 10 osc_ws osc_p = Ok (osc_p, 0%N).
+Proof. exact vnbest_f64_fixed_returns. Qed.
+Print Assumptions C14_vnbest_f64_fixed_example.
+
+(* The exact-gap statement does not survive rounding: REFUTED for binary64 in exact arithmetic -- VnFirst on 0.1 0.1 0.6000000000000001 0.7000000000000001
    with parts 0 1 1 0 returns 1 1 1 0: the exact gap grows by 2^-54 ([check_vn_f64] = (within the
    rounding tolerance, NOT strictly)). *)
 Theorem C14_vnfirst_f64_exact_gap_refuted :
